@@ -188,6 +188,25 @@ def gen_material(kind, seed, n):
         if p.returncode != 0:
             raise BuildError("generator failed: " + p.stderr[-2000:])
         text = p.stdout
+    return _parse_mats(text)
+
+
+def script(requests):
+    """the reference encoder as a service: `requests` are dicts(kind="lzma", lc, lp, pb, dict, prog="L65,M2.5,…")
+    or dicts(kind="lzma2", chunks="U1:<hex>|C3:3.0.2:<prog>|…"); returns the material dicts (payload, out, wf, cum …)"""
+    lines = []
+    for i, r in enumerate(requests):
+        lines.append("script idx=%d " % i + " ".join("%s=%s" % (k, v) for k, v in r.items()))
+    p = subprocess.run([LZMODEL, "script"], input="\n".join(lines) + "\n", capture_output=True, text=True, timeout=3600)
+    if p.returncode != 0:
+        raise BuildError("script encoder failed: " + p.stderr[-2000:])
+    mats = _parse_mats(p.stdout)
+    if len(mats) != len(requests):
+        raise BuildError("script encoder returned %d lines for %d requests" % (len(mats), len(requests)))
+    return mats
+
+
+def _parse_mats(text):
     mats = []
     for line in text.splitlines():
         if not line.startswith("mat "):
@@ -197,7 +216,7 @@ def gen_material(kind, seed, n):
             if "=" in tok:
                 k, v = tok.split("=", 1)
                 d[k] = v
-        for k in ("lc", "lp", "pb", "dict", "eos", "nsyms", "idx", "nchunks"):
+        for k in ("lc", "lp", "pb", "dict", "eos", "nsyms", "idx", "nchunks", "wf"):
             if k in d:
                 d[k] = int(d[k])
         d["payload"] = bytes.fromhex(d.get("payload", ""))
@@ -294,7 +313,7 @@ class XzBlock:
         self.nfilters = nfilters
 
 
-def build_xz(check_id, blocks, rec=None, index_records=None):
+def build_xz(check_id, blocks, rec=None, index_records=None, index_count=None):
     """Build a single-stream .xz file.  `rec`, if a dict, receives field offsets
     (for targeted mutations): each entry name -> (offset, length)."""
     f = bytearray()
@@ -359,9 +378,14 @@ def build_xz(check_id, blocks, rec=None, index_records=None):
     istart = len(f)
     idx = bytearray(b"\x00")
     off["idx_count"] = (istart + len(idx), 1)
-    idx += mb(len(records))
     if index_records is not None:
-        records = [(u2, n2, b) for (u2, n2), (_, _, b) in zip(index_records, records)]
+        # a self-consistent index of any length (fewer or more records than blocks)
+        recs2 = []
+        for i, (u2, n2) in enumerate(index_records):
+            b = records[i][2] if i < len(records) else (records[-1][2] if records else XzBlock(b"", b""))
+            recs2.append((u2, n2, b))
+        records = recs2
+    idx += mb(len(records) if index_count is None else index_count)
     for bi, (u, n, b) in enumerate(records):
         off["idx%d_unpadded" % bi] = (istart + len(idx), 1)
         idx += mb(u, b.widths.get("idx_unpadded"))
